@@ -1279,9 +1279,16 @@ func fF4(p *Prog, o *obls, fn *ssa.Function) {
 		}
 		name := calleeName(&call.Call)
 		isVal, isRecv := parseValueFuncs[name], parseRecvFuncs[name]
+		ctor := false
 		if !isVal && !isRecv {
-			return
+			// a fallible constructor of the repository — (object, error) where every failing return hands back nil
+			// for the object (PacketFactory.NewPacket): using the object where the error may be non-nil dereferences nil
+			if !failsWithNilResult(p, call) {
+				return
+			}
+			isVal, ctor = true, true
 		}
+		_ = ctor
 		construct := fk + ":" + shortCallee(name)
 		fe := errExtract(call)
 		if _, isTuple := call.Type().(*types.Tuple); !isTuple {
@@ -1300,8 +1307,82 @@ func fF4(p *Prog, o *obls, fn *ssa.Function) {
 			if !canReach(call, user) {
 				return ""
 			}
+			if ctor {
+				// only uses that dereference the object (or hand it, without its error, to code that may) matter:
+				// storing a nil pointer, boxing it, merging it or returning it is harmless
+				res := ssa.Value(extractN(call, 0))
+				deref := false
+				switch x := user.(type) {
+				case *ssa.FieldAddr:
+					deref = x.X == res
+				case *ssa.IndexAddr:
+					deref = x.X == res
+				case *ssa.UnOp:
+					deref = x.Op == token.MUL && x.X == res
+				case ssa.CallInstruction:
+					cc := x.Common()
+					if cc.IsInvoke() && cc.Value == res {
+						deref = true
+					}
+					withErr := false
+					for _, a := range cc.Args {
+						if errV != nil && p.origin(a) == errV {
+							withErr = true
+						}
+					}
+					if !withErr {
+						for _, a := range cc.Args {
+							if a == res {
+								deref = true
+							}
+						}
+					}
+				}
+				if !deref {
+					return ""
+				}
+			}
+			if ctor && errV != nil {
+				used := false
+				if rs := errV.Referrers(); rs != nil {
+					for _, r := range *rs {
+						if _, isDbg := r.(*ssa.DebugRef); !isDbg {
+							used = true
+						}
+					}
+				}
+				if !used {
+					return ""
+				}
+			}
 			if errV == nil {
+				if ctor {
+					return "" // `x, _ := newX(size)` states a belief (the size was validated at construction): not decided
+				}
 				return fmt.Sprintf("%s used at %s although the parse error is discarded", what, p.instrPos(user))
+			}
+			if mi, ok := user.(*ssa.MakeInterface); ok && ctor && mi.Referrers() != nil {
+				// `return NewX(…)` through an interface result: object and error are handed on together
+				together := len(*mi.Referrers()) > 0
+				for _, r := range *mi.Referrers() {
+					ret, isRet := r.(*ssa.Return)
+					has := false
+					if isRet {
+						for _, rv := range ret.Results {
+							if p.origin(rv) == errV {
+								has = true
+							}
+						}
+					}
+					if !has {
+						if _, isDbg := r.(*ssa.DebugRef); !isDbg {
+							together = false
+						}
+					}
+				}
+				if together {
+					return ""
+				}
 			}
 			if ret, ok := user.(*ssa.Return); ok {
 				// handing result and error on together is fine
@@ -1312,6 +1393,12 @@ func fF4(p *Prog, o *obls, fn *ssa.Function) {
 				}
 			}
 			if p.nilnessAt(errV, user.Block()) != -1 {
+				if ctor {
+					if res := extractN(call, 0); res != nil && p.nilnessAt(res, user.Block()) == 1 {
+						return "" // tested non-nil itself
+					}
+					return fmt.Sprintf("the object is used at %s on a path on which the error may be non-nil (every failing return of the callee hands back nil): a nil dereference", p.instrPos(user))
+				}
 				return fmt.Sprintf("%s used at %s without being on the success branch of the parse error test", what, p.instrPos(user))
 			}
 			return ""
@@ -1377,6 +1464,60 @@ func fF4(p *Prog, o *obls, fn *ssa.Function) {
 		}
 		o.ok("F4", construct, p.instrPos(call), "every use of the parse result lies on the success branch of its error test")
 	})
+}
+
+// failsWithNilResult: the call returns (object, error) with a nil-able object, all its possible callees are repository
+// functions, each has a failing return, and every failing return (error result not the constant nil) returns the
+// constant nil for the object.
+func failsWithNilResult(p *Prog, call *ssa.Call) bool {
+	tup, ok := call.Type().(*types.Tuple)
+	if !ok || tup.Len() != 2 || !isErrorType(tup.At(1).Type()) {
+		return false
+	}
+	switch tup.At(0).Type().Underlying().(type) {
+	case *types.Pointer, *types.Interface, *types.Map:
+	default:
+		return false
+	}
+	callees := p.Callees(call)
+	if len(callees) == 0 {
+		return false
+	}
+	anyFailing := 0
+	for _, c := range callees {
+		if !p.InUniverse(c) || c.Blocks == nil {
+			return false
+		}
+		failing := 0
+		okAll := true
+		for _, b := range c.Blocks {
+			ret, isRet := b.Instrs[len(b.Instrs)-1].(*ssa.Return)
+			if !isRet || b == c.Recover || len(ret.Results) != 2 {
+				continue
+			}
+			if ec, isC := returnedValue(ret, 1).(*ssa.Const); isC && ec.IsNil() {
+				continue
+			}
+			// the error may be non-nil here
+			if vc, isC := returnedValue(ret, 0).(*ssa.Const); isC && vc.IsNil() {
+				failing++
+			} else if ex, isEx := returnedValue(ret, 0).(*ssa.Extract); isEx && ex.Index == 0 {
+				// `return inner(…)`-style propagation: judged by the inner call
+				if ic, isCall := ex.Tuple.(*ssa.Call); isCall && failsWithNilResult(p, ic) {
+					failing++
+				} else {
+					okAll = false
+				}
+			} else {
+				okAll = false
+			}
+		}
+		if !okAll {
+			return false
+		}
+		anyFailing += failing
+	}
+	return anyFailing > 0
 }
 
 // speculativeLoad: u loads a plain field of the parsed object before the error test (`seq := ext.TransportSequence` hoisted
